@@ -115,7 +115,7 @@ func main() {
 		// TMPDIR must hold no spiller directory that was not there before.
 		var left []string
 		for e := range listDir(tmp) {
-			if !before[e] && strings.HasPrefix(e, "spiller-") {
+			if !before[e] && strings.HasPrefix(e, "spiller-c09-") {
 				left = append(left, e)
 			}
 		}
